@@ -558,3 +558,81 @@ Proof.
   split; vm_compute; tauto.
 Qed.
 Print Assumptions C10_generated_input_read_sites_are_the_modelled_ones.
+
+(* ---- the head of Request.__init__: request headers rebuilt from the CGI
+   variables of the WSGI environment, media type, charset and content length
+   (model/EnvHeaders.v, facts in proofs/EnvHeadersFacts.v).  What the body
+   parsers are told about the body is what the server put into CONTENT_TYPE /
+   CONTENT_LENGTH. *)
+Require Import PW.model.EnvHeaders PW.proofs.EnvHeadersFacts.
+
+(* the CGI variable HTTP_<WORDS_IN_UPPER_CASE> of a header maps back to the
+   canonical Capitalised-Dashed name, for every header name *)
+Theorem C10_cgi_name_roundtrip :
+  forall ws, ws <> [] -> (forall w, In w ws -> ~ In 95 w) ->
+  header_of_key (cgi_key ws) =
+  Some (EnvHeaders.join [45] (map capitalize ws)).
+Proof. exact cgi_name_roundtrip. Qed.
+Print Assumptions C10_cgi_name_roundtrip.
+
+(* the header table keeps the order and the values of the environment *)
+Theorem C10_env_headers_keep_order_and_values :
+  forall e,
+  map snd (env_headers e) = map snd (filter is_header_key e) /\
+  map (fun kv => Some (fst kv)) (env_headers e) =
+  map (fun kv => header_of_key (fst kv)) (filter is_header_key e).
+Proof. intros e. split; [apply env_headers_values|apply env_headers_names]. Qed.
+Print Assumptions C10_env_headers_keep_order_and_values.
+
+(* on an environment where no other key stands for Content-Type /
+   Content-Length (what a WSGI server guarantees), the facts every body
+   parser starts from are read from CONTENT_TYPE and CONTENT_LENGTH *)
+Theorem C10_request_head_from_cgi :
+  forall e p,
+  assoc k_path_info e = Some p ->
+  only_key_for h_ctype k_ctype e -> only_key_for h_clen k_clen e ->
+  request_head e =
+    HeaderCodec.bind (HeaderCodec.parse_header (or_empty (assoc k_ctype e)))
+      (fun cp =>
+    HeaderCodec.bind (int_or (assoc k_clen e) (-1)) (fun n =>
+    HeaderCodec.Ok (mkfacts (env_headers e) (fst cp)
+                            (dgetd (snd cp) s_charset s_utf8) n))).
+Proof. exact request_head_from_cgi. Qed.
+Print Assumptions C10_request_head_from_cgi.
+
+(* ... and the hypothesis is needed: HTTP_CONTENT_TYPE earlier in the
+   environment (a client header "Content_Type") takes the place of
+   CONTENT_TYPE *)
+Theorem C10_content_type_shadowing_witness :
+  hget (env_headers shadow_env) h_ctype = Some [97] /\
+  assoc k_ctype shadow_env = Some [98].
+Proof. exact content_type_shadowing_witness. Qed.
+Print Assumptions C10_content_type_shadowing_witness.
+
+(* the content length is the decimal number sent; absent or empty is -1 *)
+Theorem C10_content_length_is_the_number_sent :
+  int_or None (-1) = HeaderCodec.Ok (-1) /\
+  int_or (Some []) (-1) = HeaderCodec.Ok (-1) /\
+  forall n, 0 <= n -> int_or (Some (Dec.dec n)) (-1) = HeaderCodec.Ok n.
+Proof.
+  split; [exact content_length_absent|].
+  split; [exact content_length_empty|exact content_length_decimal].
+Qed.
+Print Assumptions C10_content_length_is_the_number_sent.
+
+Theorem C10_request_needs_path_info :
+  forall e, assoc k_path_info e = None ->
+  request_head e = HeaderCodec.Raised "ConnectionError".
+Proof. exact request_head_needs_path_info. Qed.
+Print Assumptions C10_request_needs_path_info.
+
+(* ---- translator tie: the definition generated from the current source of
+   Request.__init__ (its statements from the first one to the assignment of
+   the content length; gen/EnvHdrGen.v by harness/py2v_envhdr.py over
+   lib/PyEnvHdr.v) is the model, for every environment *)
+Require Import PW.lib.PyEnvHdr PW.gen.EnvHdrGen PW.proofs.EnvHdrGenEq.
+
+Theorem C10_generated_request_head_is_model :
+  forall e, gen_request_head e = request_head e.
+Proof. exact gen_request_head_is_model. Qed.
+Print Assumptions C10_generated_request_head_is_model.
